@@ -559,6 +559,25 @@ func genC17(e *emitter, r *rng, tier string) {
 				b.handles = append(b.handles, old)
 			}
 		}
+		// the same derivation REPEATED on the same value (and on older ones, between other
+		// derivations): what a value can be asserted to must not depend on what was derived before
+		if chain > 0 && r.coin(60) {
+			views := append([]string(nil), b.stmts...)
+			for k := 0; k < 1+r.intn(4); k++ {
+				st := views[r.intn(len(views))]
+				var hh, xx int
+				if _, err := fmt.Sscanf(strings.SplitN(st, ":", 2)[1], "%d:%d", &hh, &xx); err != nil {
+					continue
+				}
+				old := b.handles[hh]
+				b.stmts = append(b.stmts, st)
+				if strings.HasPrefix(st, "ws:") {
+					b.handles = append(b.handles, hinfo{max(old.lo, xx), old.hi})
+				} else {
+					b.handles = append(b.handles, hinfo{old.lo, min(old.hi, xx)})
+				}
+			}
+		}
 		h := len(b.handles) - 1
 		// functions that must traverse to the end are only offered to finite types
 		b.add("fws:%d:1", h)
